@@ -31,6 +31,18 @@ def execute(pid, chk, overrides=None):
     ctx = Ctx(overrides=overrides)
     del _ip.UNSUPPORTED[:]
     del _ip.OPAQUE[:]
+    # private names this tree has and the reference tree has not (sa/report.py: NEW_PRIVATE)
+    import json
+    import os
+    from . import report as _rep
+    from .model import private_names
+    try:
+        with open(os.path.join(os.path.dirname(os.path.dirname(os.path.abspath(__file__))),
+                               "private_names.json")) as fh:
+            frozen = set(json.load(fh))
+        _rep.NEW_PRIVATE = private_names(ctx.repo) - frozen
+    except Exception:
+        _rep.NEW_PRIVATE = set()
     # a host-vector layout whose index expressions were not decoded makes every column
     # classification a guess: nothing derived from it is a verdict
     # (only when a documented column family is left without an index attribute: an extra class
